@@ -177,6 +177,12 @@ func opHandler(r *rand.Rand, n int, tier string) {
 	stop := make(chan int)
 	var wg sync.WaitGroup
 	wg.Add(3)
+	// the same line of one generic function, instantiated with differently shaped type arguments: the runtime prints
+	// both as parkGeneric[...] with an aggregate resp. a scalar argument (the aggregate one comes first in the dump)
+	wg.Add(2)
+	go parkGeneric(stop, struct{ a, b uintptr }{1, 2}, &wg)
+	time.Sleep(time.Millisecond)
+	go parkGeneric(stop, uintptr(3), &wg)
 	for k := 0; k < 3; k++ {
 		// (a multi-line function: for a one-line function the frame's line starts at the declaration itself
 		//  and the source analysis finds no enclosing function)
@@ -233,6 +239,13 @@ func init() {
 // ---- live ----
 
 var reHeaderLine = regexp.MustCompile(`(?m)^goroutine \d+ `)
+
+//go:noinline
+func parkGeneric[T any](c chan int, v T, wg *sync.WaitGroup) {
+	wg.Done()
+	<-c
+	_ = v
+}
 
 //go:noinline
 func parkRecv(c chan int, wg *sync.WaitGroup) { wg.Done(); <-c }
